@@ -7,6 +7,12 @@ letter case; uses-graphs arbitrary):
   the rule by which `AstAnnotator::handle_class` sets them — the table is published
   (`doc_info.symbol_table`) BEFORE the parent is resolved, so a class that is reached again
   while it is being analysed hands out its unfinished table;
+* files WITHOUT class / module header (`ClassDecl.header = false`): found under their file name like
+  any class, with their own uses list, declarations and bodies; `handle_class` never runs for them, so
+  their table has no owner, no parent and no `self`; what ends the recursion when such a file reaches
+  itself through its uses is the same published table (`get_symbol_table_for_uri_def_only` hands out
+  the table on the document info whoever owns it); they are no entities of the class tree (a node
+  exists only if a class names the file as parent) and hierarchy requests on them end at `get_class()`;
 * the lock structure of a lookup (`get_symbol_info` & co. in `symbol_table.rs`): the caller
   holds the table's mutex, the lookup locks the parent table and recurses while holding it;
   `std::sync::Mutex` is not re-entrant, so meeting a table that is already held never returns;
@@ -143,7 +149,13 @@ structure ClassDecl (α : Type) where
   uses : List α
   body : Bool                -- has a method body that resolves names through self, the parent chain and the uses lists
   members : List α           -- the declared methods / fields a client asks hierarchy questions about
+  header : Bool              -- the file starts with `class name [(parent)]`; `false`: a file WITHOUT class / module header
+                             -- (it still has its uses list, declarations and bodies, and is found under its file name:
+                             -- `handle_class` never runs, the table belongs to no class, the file is no entity of the tree)
 deriving Repr, DecidableEq
+
+/-- the parent the file declares: only a header can name one -/
+def ClassDecl.headerParent {α : Type} (d : ClassDecl α) : Option α := if d.header then d.parent else none
 
 structure Table (α : Type) where
   cls : α
@@ -260,6 +272,15 @@ def linkParent (rule : Rule) (norm : α → α) (ds : List (ClassDecl α)) (nest
           | none => .ok s
           | some tp => .ok (s.link rule t tp)
 
+/-- `handle_class`, the step of the header: the parent, then the class itself and `self` as symbols.
+    A file without header has no such step (its table gets no owner, no parent and neither symbol). -/
+def headerStep (rule : Rule) (norm : α → α) (ds : List (ClassDecl α)) (nested : St α → ClassDecl α → Res α)
+    (t : Nat) (d : ClassDecl α) (s : St α) : Res α :=
+  if d.header then
+    (linkParent rule norm ds nested t d s).andThen fun s =>
+      .ok ((s.insertSym t d.name).insertSym t d.name)          -- the class itself and `self`
+  else .ok s
+
 /-- one first-level declaration: "already defined?" lookup, type resolution, insertion -/
 def declStep (norm : α → α) (ds : List (ClassDecl α)) (nested : St α → ClassDecl α → Res α)
     (t : Nat) (uses : List α) (s : St α) (dc : Decl α) : Res α :=
@@ -269,17 +290,17 @@ def declStep (norm : α → α) (ds : List (ClassDecl α)) (nested : St α → C
       | .viaUses _ => (s.lookupMiss t).andThen (usesLoop norm ds nested uses)).andThen fun s =>
         .ok (s.insertSym t dc.name)
 
-/-- `annotate_doc` of class `d` once its nested analyses are given (`defsOnly`: first-level
-    definitions only): publish the table FIRST, then the parent, the declarations in file
-    order, and (full analysis) the method bodies -/
+/-- `annotate_doc` of file `d` once its nested analyses are given (`defsOnly`: first-level
+    definitions only): publish the table FIRST (under the file's name, with or without header:
+    `get_symbol_table_for_uri_def_only` hands out whatever table the document has), then the
+    header (parent), the declarations in file order, and (full analysis) the method bodies -/
 def annotateBody (rule : Rule) (norm : α → α) (ds : List (ClassDecl α)) (nested : St α → ClassDecl α → Res α)
     (s : St α) (d : ClassDecl α) (defsOnly : Bool) : Res α :=
   let t := s.tables.length
   let s : St α := { (s.newTable d.name).1 with
                     pub := (norm d.name, t) :: s.pub,
                     full := if defsOnly then s.full else norm d.name :: s.full }
-  let r := (linkParent rule norm ds nested t d s).andThen fun s =>
-    .ok ((s.insertSym t d.name).insertSym t d.name)          -- the class itself and `self`
+  let r := headerStep rule norm ds nested t d s
   let r := d.decls.foldl (fun r dc => r.andThen fun s => declStep norm ds nested t d.uses s dc) r
   if defsOnly || !d.body then r
   else r.andThen fun s => (s.lookupMiss t).andThen (usesLoop norm ds nested d.uses)
@@ -315,10 +336,11 @@ inductive Kind where
 deriving Repr, DecidableEq
 
 /-- entity tree of the declared relation: node `i` = the `i`-th class key of `keys` (all
-    declared classes first, then the missing parents) -/
+    files first, then the missing parents).  A file without header declares no entity: its node
+    has no parent and exists in the real tree only if some class names the file as its parent. -/
 def treeKeys (norm : α → α) (ds : List (ClassDecl α)) : List α :=
   let own := ds.map (fun d => norm d.name)
-  own ++ ((ds.filterMap (fun d => d.parent.map norm)).filter (fun k => !own.contains k)).eraseDups
+  own ++ ((ds.filterMap (fun d => d.headerParent.map norm)).filter (fun k => !own.contains k)).eraseDups
 
 def keyIdx (keys : List α) (k : α) : Option Nat :=
   if keys.idxOf k < keys.length then some (keys.idxOf k) else none
@@ -326,7 +348,7 @@ def keyIdx (keys : List α) (k : α) : Option Nat :=
 def treeParent (norm : α → α) (ds : List (ClassDecl α)) (n : Nat) : Option Nat :=
   match ds[n]? with
   | none => none
-  | some d => match d.parent with
+  | some d => match d.headerParent with
     | none => none
     | some p => keyIdx (treeKeys norm ds) (norm p)
 
@@ -335,7 +357,7 @@ def treeChildren (norm : α → α) (ds : List (ClassDecl α)) (n : Nat) : List 
   | none => []
   | some k => (List.range ds.length).filter fun i =>
       match ds[i]? with
-      | some d => d.parent.map norm = some k
+      | some d => d.headerParent.map norm = some k
       | none => false
 
 /-- nodes whose tables a walk asks for, in order: the walk itself is `walkUp` / `walkDown`;
@@ -429,10 +451,15 @@ def request (rule : Rule) (norm : α → α) (ds : List (ClassDecl α)) (s : St 
       (analyzeFull rule norm ds s d.name).andThen fun s =>
         -- class item: the items of the parent entity and of the child entities
         (ensureNodes rule norm ds ((treeParent norm ds ci).toList ++ treeChildren norm ds ci) s).andThen fun s =>
-          d.members.foldl (fun r m => r.andThen (memberWalks rule norm ds ci (declaresAt norm ds m))) (.ok s)
+          -- member items: `prepare_type_hierarchy` answers with the owner of the table, a file without header has none
+          if d.header then
+            d.members.foldl (fun r m => r.andThen (memberWalks rule norm ds ci (declaresAt norm ds m))) (.ok s)
+          else .ok s
     | .hierx =>
       -- a member name nobody declares: the walks stop only where there is no file
-      (ensureTable rule norm ds s d.name).andThen (memberWalks rule norm ds ci (noFile ds))
+      -- (the walks start from `get_class()` of the file's table: without header the request ends there)
+      (ensureTable rule norm ds s d.name).andThen fun s =>
+        if d.header then memberWalks rule norm ds ci (noFile ds) s else .ok s
 
 /-- a sequence of requests `(kind, file)`; stops at the first one that does not return -/
 def runRequests (rule : Rule) (norm : α → α) (ds : List (ClassDecl α)) (reqs : List (Kind × Nat)) (s : St α) : Res α :=
